@@ -205,7 +205,25 @@ def s_binop(op: str, a, b):
 
 
 _sqrt_f = z3.Function("sqrt_", z3.RealSort(), z3.RealSort())
-AXIOMS: list = []  # theory facts about uninterpreted helpers; valid in every model
+class _Axioms(list):
+    """Theory facts about uninterpreted helpers (round_, sqrt_): valid in every model. Deduplicated."""
+
+    def __init__(self):
+        super().__init__()
+        self._ids = set()
+
+    def append(self, f):
+        k = f.get_id()
+        if k not in self._ids:
+            self._ids.add(k)
+            super().append(f)
+
+    def clear(self):
+        super().clear()
+        self._ids.clear()
+
+
+AXIOMS = _Axioms()
 
 
 def s_sqrt(a):
@@ -342,6 +360,33 @@ def cast_kind(x, kind: str):
 
 # ---------------------------------------------------------------- arrays
 
+
+def _key(x):
+    if isinstance(x, z3.ExprRef):
+        return ("z", x.get_id())
+    if isinstance(x, tuple):
+        return tuple(_key(e) for e in x)
+    return ("c", x)
+
+
+def memo(f):
+    """Memoise an index -> term closure (closures are pure; avoids exponential re-evaluation)."""
+    cache = {}
+    keep = []
+
+    def g(*idx):
+        k = tuple(_key(i) for i in idx)
+        if k in cache:
+            return cache[k]
+        r = f(*idx)
+        cache[k] = r
+        keep.append(idx)  # keep the z3 terms alive so that ids stay unique
+        return r
+
+    g._memo = True
+    return g
+
+
 _uid = itertools.count()
 
 
@@ -360,6 +405,14 @@ class Arr:
         self.name = name or f"arr{next(_uid)}"
         self.reads: list = []  # index tuples this object was read at (for instantiation)
         self.owner = None  # ghost: alignment tag (C14)
+
+    @property
+    def fn(self):
+        return self._fn
+
+    @fn.setter
+    def fn(self, f):
+        self._fn = f if getattr(f, "_memo", False) else memo(f)
 
     @property
     def ndim(self):
